@@ -71,6 +71,7 @@ namespace vh
         std::string mode;        // harness-specific selection (property id)
         bool verbose = false;
         bool keep_going = false;  // do not stop at the first violation
+        bool verify_replay = false;  // re-execute every run from its recorded deviations and compare event hashes
         int max_viol = 3;
         std::string gate;         // comma separated violation classes that count for this check ("" = all)
         bool gates(const std::string& cls) const
@@ -105,6 +106,8 @@ namespace vh
                 a.mode = val();
             else if (k == "--verbose")
                 a.verbose = true;
+            else if (k == "--verify-replay")
+                a.verify_replay = true;
             else if (k == "--keep-going")
                 a.keep_going = true;
             else if (k == "--gate")
